@@ -180,6 +180,29 @@ def classify_reject(c):
     return (c["what"], c["cipher"] if c["what"] == "key" else c["conf"]["cipher"])
 
 
+
+# ---------------------------------------------------------------------------
+# one object, several enc/dec calls in a row: every result is the standard's
+def check_history(c):
+    obj = guard(CI.make, c)
+    tag = CI.label(c)
+    for i, (d, blk) in enumerate(c["calls"]):
+        if d == "enc":
+            got, exp = guard(obj.enc, blk), CI.ref_enc(c, blk)
+        else:
+            got, exp = guard(obj.dec, blk), CI.ref_dec(c, blk)
+        if got != exp:
+            raise Violation("%s:call-history:%s!=standard" % (tag, d), {"call": i, "out": exp}, {"call": i, "out": got})
+
+
+def history_strategy(tier):
+    def with_calls(c):
+        n = CI.BLOCK[c["cipher"]]
+        call = st.tuples(st.sampled_from(["enc", "dec"]), gen.blob(n))
+        return st.lists(call, min_size=2, max_size=6).map(lambda l: dict(c, calls=tuple(l)))
+    return CI.config_strategy().flatmap(with_calls)
+
+
 FACETS = [
     Facet("gmul-exhaustive", check_gmul, cases=gmul_cases, exhaustive=True, distinct=True,
           nontrivial=lambda c: c[0] > 1 and c[1] > 1, shards={"quick": 2, "thorough": 2},
@@ -192,6 +215,10 @@ FACETS = [
     Facet("random-blocks", check_block, strategy=block_strategy, budget={"quick": 2500, "thorough": 100000},
           shards={"quick": 16, "thorough": 32}, nontrivial=nontriv_block, classify=classify_block,
           rule="random configuration (keys random / weak / zero-one words), random-constant-single-bit blocks, enc, dec or both"),
+    Facet("call-histories", check_history, strategy=history_strategy, budget={"quick": 800, "thorough": 30000},
+          shards={"quick": 16, "thorough": 32}, nontrivial=lambda c: len(c["calls"]) >= 2,
+          classify=lambda c: (CI.label(c), "".join(d[0] for d, _ in c["calls"])[:3]),
+          rule="2..6 enc/dec calls with different blocks on ONE object, each compared with the reference (cached key schedules, stale state)"),
     Facet("undefined-sizes", check_reject, strategy=reject_strategy, budget={"quick": 1200, "thorough": 20000},
           nontrivial=lambda c: True, classify=classify_reject,
           rule="AES key not in {16,24,32}, DES key != 8, TDEA strings/arguments of other lengths, Serpent key > 256 bits, Threefish key/tweak "
